@@ -301,7 +301,7 @@ def run_expressions(ctx, sq, n_exact, n_tol):
         cases.append(c)
         ctx.count(("expr", c["repr"], sorted(c["vals"].items())), nontrivial=tree_size(c["tree"]) >= 3)
         ctx.sample({"expression": c["repr"], "values": {k: str(v) for k, v in c["vals"].items()}, "mode": "exact"})
-    verdicts, errors = ctx.run_bool_cases("expr", HEADER_Q, terms, chunk=40)
+    verdicts, errors = ctx.run_bool_cases("expr", HEADER_Q, terms, chunk=40 if len(terms) > 2000 else 100)
     for e in errors:
         ctx.report("expression correspondence shard failed to evaluate",
                    {"theorem_or_correspondence": "C11 expression correspondence (Cases)", "coq_output": e}, found_input=False)
@@ -338,7 +338,7 @@ def hist(xs):
 def run_goals(ctx, tag, goals):
     if not goals:
         return set(), set()
-    nsh = min(core.NPROC, max(1, len(goals) // 3))
+    nsh = min(core.NPROC, max(1, len(goals) // 6))
     files = []
     for s in range(nsh):
         path = os.path.join(core.CASES, "%s_p%d_%s_%d.v" % (ctx.pid, os.getpid(), tag, s))
@@ -967,7 +967,10 @@ def batch_check(s, vals, shape, wrt):
             return ("Sequence.crlb", "crlb/confint raised %s: %s" % (type(e).__name__, str(e)[:200]))
         if np.shape(cr) != bshape or np.shape(ci) != bshape + (len(wrt),):
             return ("Sequence.crlb", "crlb has shape %s, confint %s, batch %s" % (np.shape(cr), np.shape(ci), bshape))
-    for idx in np.ndindex(*bshape):
+    entries = list(np.ndindex(*bshape))
+    if len(entries) > 8:     # first, last and a spread of interior entries
+        entries = [entries[i] for i in sorted(set(np.linspace(0, len(entries) - 1, 8).astype(int)))]
+    for idx in entries:
         sv = {k: float(v[idx]) for k, v in full.items()}
         s1 = s.signal()(dict(sv))[0]
         _, j1 = s.jacobian(wrt)(dict(sv))
@@ -987,6 +990,238 @@ def batch_check(s, vals, shape, wrt):
             if not np.allclose(ci[idx], i1[0], rtol=1e-6):
                 return ("Sequence.confint", "confint%s = %s, scalar run at %s gives %s" % (list(idx), ci[idx], sv, i1[0]))
     return None
+
+
+# ------------------------------------------------------------------ (g) distinct virtual operators with equal repr
+TWIN_KINDS = ["array", "array", "keyword", "option", "map", "repeat", "expr-array"]
+
+
+def _mk(sq, epg, name, pos, kw=None, opt=None):
+    """(virtual operator, values -> hand-built concrete operator); a str argument is a variable name"""
+    kw, opt = dict(kw or {}), dict(opt or {})
+    v = getattr(sq.operators, name)(*pos, **kw, **opt)
+
+    def conc(values):
+        ev = lambda x: values[x] if isinstance(x, str) else x
+        return getattr(epg.operators, ALIAS.get(name, name))(*[ev(x) for x in pos], **{k: ev(x) for k, x in kw.items()}, **opt)
+    return v, conc
+
+
+def gen_twins(seed, sq, epg):
+    """sequence with two DIFFERENT virtual operators that print alike (VirtualOperator.__repr__ shows the class and
+    the positional expressions, an array constant prints as arr[shape]) -> (items, values, kind, description);
+    items: list of (virtual item, values -> concrete operator)"""
+    g = random.Random("twins-%s" % (seed,))
+    kind = TWIN_KINDS[seed % len(TWIN_KINDS)] if isinstance(seed, int) else g.choice(TWIN_KINDS)
+    arr = lambda base: np.round(base * np.array([g.uniform(0.6, 0.9), g.uniform(1.1, 1.5)]), 3)
+    values = {"T2": g.choice([40.0, 60.0]), "att": g.choice([0.8, 0.9])}
+    base = {"T": [("alpha", 50.0), ("phi", 20.0)], "E": [("tau", 5.0), ("T1", 900.0), ("T2", 45.0), ("g", 0.02)],
+            "P": [("tau", 5.0), ("g", 0.03)], "Phi": [("phi", 35.0)], "R": [("rT", 0.05), ("rL", 0.004)], "PD": [("pd", 1.5)]}
+    adc = ("ADC", lambda v: epg.ADC)
+    shift = _mk(sq, epg, "S", [1])
+    exc = _mk(sq, epg, "T", [g.choice([60.0, 90.0]), 0.0])
+    relax = _mk(sq, epg, "E", [4.0, 1000.0, "T2"])
+    name = g.choice(["T", "E", "P", "Phi", "R"])
+    pvals = [v for _, v in base[name]]
+    i = g.randrange(len(pvals))
+    desc = kind
+    if kind in ("array", "expr-array"):
+        a1, a2 = arr(pvals[i]), arr(pvals[i])
+        if kind == "expr-array":        # array constant inside an expression of a variable
+            att = sq.Variable("att")
+            A = _mk(sq, epg, name, pvals[:i] + [att * sq.Constant(a1)] + pvals[i + 1:])
+            B = _mk(sq, epg, name, pvals[:i] + [att * sq.Constant(a2)] + pvals[i + 1:])
+            A = (A[0], (lambda a: lambda v: getattr(epg.operators, name)(*(pvals[:i] + [v["att"] * a] + pvals[i + 1:])))(a1))
+            B = (B[0], (lambda a: lambda v: getattr(epg.operators, name)(*(pvals[:i] + [v["att"] * a] + pvals[i + 1:])))(a2))
+        else:
+            A = _mk(sq, epg, name, pvals[:i] + [a1] + pvals[i + 1:])
+            B = _mk(sq, epg, name, pvals[:i] + [a2] + pvals[i + 1:])
+        desc += " %s.%s = %s / %s" % (name, base[name][i][0], a1.tolist(), a2.tolist())
+        items = [exc, shift, A, relax, adc, shift, B, relax, adc]
+    elif kind == "keyword":
+        which = g.choice(["Adc.phase", "Adc.weights", "R.r0"])
+        if which == "R.r0":
+            r1, r2 = round(g.uniform(0.001, 0.003), 4), round(g.uniform(0.005, 0.009), 4)
+            A, B = _mk(sq, epg, "R", [0.05, 0.004], {"r0": r1}), _mk(sq, epg, "R", [0.05, 0.004], {"r0": r2})
+            items = [exc, shift, A, adc, shift, B, adc]
+        else:
+            k = which.split(".")[1]
+            x1, x2 = (0.0, g.choice([90.0, 45.0])) if k == "phase" else (1.0, g.choice([2.0, 0.5]))
+            A, B = _mk(sq, epg, "Adc", [], {k: x1}), _mk(sq, epg, "Adc", [], {k: x2})
+            items = [exc, shift, relax, A, shift, relax, B]
+        desc += " " + which
+    elif kind == "option":
+        which = g.choice(["duration", "name", "PD.reset", "Adc.attr"])
+        if which == "duration":
+            A = _mk(sq, epg, name, pvals, opt={"duration": 1.0})
+            B = _mk(sq, epg, name, pvals, opt={"duration": g.choice([2.5, 4.0])})
+            items = [exc, shift, A, relax, adc, shift, B, relax, adc]
+        elif which == "name":
+            A, B = _mk(sq, epg, name, pvals, opt={"name": "first"}), _mk(sq, epg, name, pvals, opt={"name": "second"})
+            items = [exc, shift, A, relax, adc, shift, B, relax, adc]
+        elif which == "PD.reset":
+            A, B = _mk(sq, epg, "PD", [1.5], opt={"reset": False}), _mk(sq, epg, "PD", [1.5], opt={"reset": True})
+            items = [exc, shift, relax, A, adc, shift, relax, B, adc]
+        else:
+            A, B = _mk(sq, epg, "Adc", [], opt={"attr": "F0"}), _mk(sq, epg, "Adc", [], opt={"attr": "Z0"})
+            items = [exc, shift, relax, A, shift, relax, B]
+        desc += " " + which
+    else:
+        # one virtual operator with a variable argument, instantiated twice with array-valued substitutions
+        a1, a2 = arr(pvals[i]), arr(pvals[i])
+        proto = getattr(sq.operators, name)(*(pvals[:i] + ["u"] + pvals[i + 1:]))
+        mkc = lambda a: (lambda v: getattr(epg.operators, name)(*(pvals[:i] + [a] + pvals[i + 1:])))
+        if kind == "map":
+            A, B = (proto.map({"u": a1}), mkc(a1)), (proto(u=a2), mkc(a2))
+            items = [exc, shift, A, relax, adc, shift, B, relax, adc]
+        else:
+            block = [shift[0], proto, relax[0], "ADC"]
+            rep = sq.repeat(block, 2, u=[a1.tolist(), a2.tolist()])
+            virt = [exc[0]] + [o for r in rep for o in r]
+            concs = [exc[1]] + [c for a in (a1, a2) for c in (shift[1], mkc(a), relax[1], adc[1])]
+            items = list(zip(virt, concs))
+        desc += " %s.%s <- %s / %s" % (name, base[name][i][0], a1.tolist(), a2.tolist())
+    return items, values, kind, desc
+
+
+def twins_check(items, values, sq, epg):
+    from epgpy import functions
+    s = sq.Sequence([v for v, _ in items])
+    conc = [c(values) for _, c in items]
+    built = s.build(dict(values))
+    if len(built) != len(conc):
+        return "build() returns %d operators for %d" % (len(built), len(conc))
+    for k, (b, c) in enumerate(zip(built, conc)):
+        fb, fc = _fingerprint(b, epg, ["alpha", "phi", "tau", "T1", "T2", "g", "rT", "rL", "r0"]), _fingerprint(c, epg, ["alpha", "phi", "tau", "T1", "T2", "g", "rT", "rL", "r0"])
+        fb["name"], fc["name"] = repr(getattr(b, "name", None)), repr(getattr(c, "name", None))
+        if fb != fc:
+            return "operator %d built as %s, by hand %s (differs in %s)" % (k, getattr(b, "name", b), getattr(c, "name", c), sorted(x for x in fc if fb.get(x) != fc[x]))
+    sig = s.signal()(dict(values))
+    ref = np.moveaxis(np.asarray(functions.simulate(conc, asarray=True)), 0, -1)
+    if sig.shape != ref.shape or np.abs(sig - ref).max() > 1e-12:
+        return "signal %s differs from the hand-built concrete sequence %s" % (np.round(sig, 6).tolist(), np.round(ref, 6).tolist())
+    t, tref = s.adc_times(**values), functions.get_adc_times(conc)
+    if not np.allclose(t, tref):
+        return "adc_times %s, by hand %s" % (t, tref)
+    return None
+
+
+def run_twins(ctx, sq, n):
+    import epgpy as epg
+    reported = False
+    base = ctx.rng.randrange(10 ** 6)
+    for k in range(n):
+        seed = base * 1000 + k
+        items, values, kind, desc = gen_twins(seed, sq, epg)
+        ctx.count(("twins", desc), nontrivial=True)
+        ctx.cov.setdefault("twin_kinds", {})
+        ctx.cov["twin_kinds"][kind] = ctx.cov["twin_kinds"].get(kind, 0) + 1
+        try:
+            why = twins_check(items, values, sq, epg)
+        except Exception as e:
+            why = "raised %s: %s" % (type(e).__name__, str(e)[:200])
+        if why and not reported:
+            reported = True
+            ctx.report("Sequence %s with two different virtual operators that print alike (%s) at %s: %s" % (
+                [repr(v) for v, _ in items], desc, values, why),
+                {"kind": "twins", "gen_seed": seed, "description": desc, "why": why}, found_input=True,
+                signature={"site": "Sequence.build", "why": "distinct-operators-with-equal-repr"})
+
+
+# ------------------------------------------------------------------ (h) crlb gradient / hessian axis order (mixed-case names)
+def gen_crlb_case(rng, sq):
+    ops = sq.operators
+    T1, T2, tau, alpha, B1 = (sq.Variable(n) for n in ["T1", "T2", "tau", "alpha", "B1"])
+    values = {"alpha": rng.choice([120.0, 140.0, 160.0]), "T1": rng.choice([800.0, 1000.0]), "T2": rng.choice([45.0, 60.0]),
+              "tau": rng.choice([5.0, 6.0]), "B1": rng.choice([0.85, 0.95])}
+    necho = rng.randint(5, 7)
+    style = rng.randrange(3)
+    relax = ops.E(tau, T1, T2)
+    refoc = ops.T(alpha * B1, 0) if style != 1 else ops.T(alpha, 10 * B1)
+    seq = [ops.T(90 * B1 if style == 2 else 90, 90)] + [ops.S(1), relax, refoc, ops.S(1), relax, "ADC"] * necho
+    return sq.Sequence(seq), values, "CPMG(necho=%d, style=%d)" % (necho, style)
+
+
+def crlb_check(s, values, variables, gradient, kw, cache=None):
+    from epgpy import stats
+    cache = {} if cache is None else cache
+    cost, grad = s.crlb(variables, gradient=gradient, **kw)(dict(values))
+    cost0 = s.crlb(variables, **kw)(dict(values))
+    grad = np.asarray(grad)
+    if grad.shape != np.shape(cost) + (len(gradient),):
+        return "gradient has shape %s for %d gradient variables" % (grad.shape, len(gradient))
+    if not np.allclose(cost, cost0, rtol=1e-9):
+        return "cost with gradient %s differs from the gradient-free cost %s" % (cost, cost0)
+    exp = np.zeros_like(grad)
+    for j, v in enumerate(gradient):
+        if v not in cache:
+            h = 1e-5 * abs(values[v])
+            up, dn = dict(values), dict(values)
+            up[v] += h
+            dn[v] -= h
+            cache[v] = (np.asarray(s.crlb(variables, **kw)(up)) - np.asarray(s.crlb(variables, **kw)(dn))) / (2 * h)
+        exp[..., j] = cache[v]
+    scale = np.abs(exp).max()
+    for j, v in enumerate(gradient):
+        if not np.allclose(grad[..., j], exp[..., j], rtol=2e-3, atol=1e-4 * scale):
+            return "d crlb / d %s (entry %d of gradient=%s) = %s, central difference of the gradient-free crlb = %s (all entries: %s vs %s)" % (
+                v, j, gradient, grad[..., j].tolist(), exp[..., j].tolist(), grad.tolist(), exp.tolist())
+    _, jac, hes = s.hessian(variables, gradient)(dict(values))
+    skw = {("W" if k == "weights" else k): x for k, x in kw.items()}
+    cost2, grad2 = stats.crlb(jac, H=hes, **skw)
+    if not (np.allclose(cost, cost2, rtol=1e-9) and np.allclose(grad, grad2, rtol=1e-7, atol=1e-9 * scale)):
+        return "crlb(gradient=%s) = %s differs from stats.crlb(hessian(variables, gradient)) = %s" % (gradient, grad.tolist(), np.asarray(grad2).tolist())
+    return None
+
+
+def hessian_order_check(s, values, v1, v2):
+    """hessian(v1, v2)[..., i, j] is the (v1[i], v2[j]) entry of the full hessian on the sorted union"""
+    union = sorted(set(v1) | set(v2))
+    _, jf, hf = s.hessian(union)(dict(values))
+    _, j, h = s.hessian(v1, v2)(dict(values))
+    if h.shape[-2:] != (len(v1), len(v2)) or j.shape[-1] != len(v1):
+        return "hessian(%s, %s) returns shapes %s %s" % (v1, v2, j.shape, h.shape)
+    sc = np.abs(hf).max() + 1e-300
+    for a, u in enumerate(v1):
+        if np.abs(j[..., a] - jf[..., union.index(u)]).max() > 1e-9 * (np.abs(jf).max() + 1e-300):
+            return "jacobian column %d of hessian(%s, %s) is not d/d%s" % (a, v1, v2, u)
+        for b, w in enumerate(v2):
+            if np.abs(h[..., a, b] - hf[..., union.index(u), union.index(w)]).max() > 1e-9 * sc:
+                return "hessian(%s, %s)[..., %d, %d] is not d2/d%s d%s of hessian(%s)" % (v1, v2, a, b, u, w, union)
+    return None
+
+
+def run_crlb_gradients(ctx, sq, n):
+    rng = ctx.rng
+    seen = set()
+    for k in range(n):
+        s, values, desc = gen_crlb_case(rng, sq)
+        names = sorted(values)
+        variables = rng.sample(["T2", "alpha", "T1", "B1"], 2)
+        _, jac = s.jacobian(variables)(dict(values))
+        if np.linalg.cond(np.einsum("...ni,...nj->...ij", jac.conj(), jac).real).max() > 1e6:
+            variables = ["T2", "alpha"]
+        m = rng.randint(2, 4)
+        gsel = sorted(rng.sample(names, m))
+        orders = [gsel, gsel[::-1], rng.sample(gsel, m), sorted(gsel, key=str.lower), sorted(gsel, key=str.lower)[::-1]]
+        kw = rng.choice([{}, {}, {"log": True}, {"weights": [1.0, 3.0], "sigma2": 0.5}, {"weights": [2.0, 0.5]}])
+        cache = {}
+        orders = [list(o) for o in dict.fromkeys(tuple(o) for o in orders)]
+        for gradient in orders:
+            ctx.count(("crlb", desc, tuple(variables), tuple(gradient), str(kw)), nontrivial=gradient != sorted(gradient))
+            ctx.cov["crlb_gradient_cases"] = ctx.cov.get("crlb_gradient_cases", 0) + 1
+            for site, fn in (("Sequence.crlb", lambda: crlb_check(s, values, variables, gradient, kw, cache)),
+                             ("Sequence.hessian", lambda: hessian_order_check(s, values, gradient, rng.sample(names, rng.randint(1, 3))))):
+                try:
+                    why = fn()
+                except Exception as e:
+                    why = "raised %s: %s" % (type(e).__name__, str(e)[:200])
+                if why and site not in seen:
+                    seen.add(site)
+                    ctx.report("Sequence %s at %s, variables %s, gradient %s, %s: %s" % (desc, values, variables, gradient, kw, why),
+                               {"kind": "crlb-gradient", "sequence": desc, "values": values, "variables": variables,
+                                "gradient": gradient, "options": kw, "why": why}, found_input=True,
+                               signature={"site": site, "why": "variable-order"})
 
 
 # ------------------------------------------------------------------ verdicts computed inside Coq
@@ -1029,6 +1264,8 @@ def run(ctx):
     run_jacobians(ctx, sq, 12 if quick else 150, bad_binding)
     run_hessians(ctx, sq, 18 if quick else 200)
     run_batches(ctx, sq, 12 if quick else 120)
+    run_twins(ctx, sq, 21 if quick else 210)
+    run_crlb_gradients(ctx, sq, 3 if quick else 30)
     ctx.cov["trusted_base"] += [
         "translator /verif/translator/seq_tables.py (Python ast -> Gen/SeqTables.v: math table, virtual-operator table, __init__ signatures)",
         "hand-written model Model/Expr.v (ten python/numpy primitives, Expression.derive/map transcription), tied to epgpy.sequence by exact rational and Interval correspondence",
@@ -1095,6 +1332,15 @@ def replay(ctx, rp):
         why = batch_check(s_, vals, tuple(rp["batch_shape"]), rp["wrt"])
         print("replay: %s" % ("VIOLATION reproduced: " + why[1] if why else "batched call agrees with the scalar calls"))
         return 1 if why else 0
+    if kind == "twins":
+        import epgpy as epg
+        items, values, k_, desc = gen_twins(rp["gen_seed"], sq, epg)
+        why = twins_check(items, values, sq, epg)
+        print("replay: %s: %s" % (desc, "VIOLATION reproduced: " + why if why else "built operators equal the hand-built ones"))
+        return 1 if why else 0
+    if kind == "crlb-gradient":
+        print("replay: rebuild %s by hand; crlb(%s, gradient=%s, **%s) at %s: %s" % (rp["sequence"], rp["variables"], rp["gradient"], rp["options"], rp["values"], rp["why"]))
+        return 1
     if kind == "vop-option":
         try:
             getattr(sq.operators, rp["op"])(**rp["kwargs"]).build({})
